@@ -527,3 +527,37 @@ pub mod kuf {
         }
     }
 }
+
+/// Transcript oracle for LSX (cf. belt-block/lib.rs `tr`): while RECORD, every call gets a fresh unconstrained answer and
+/// (question, answer) is logged; while REPLAY, the k-th call must ask the k-th logged question (asserted) and receives
+/// the logged answer.  Sound for "same calls in the same order" compositions: equal questions get equal answers, nothing
+/// else is assumed (the recorded answers are not even required to be functional).  Linear in the number of calls.
+pub mod tuf {
+    pub const MAXC: usize = 64;
+    pub static mut K: [u128; MAXC] = [0; MAXC];
+    pub static mut A: [u128; MAXC] = [0; MAXC];
+    pub static mut OUT: [u128; MAXC] = [0; MAXC];
+    pub static mut N: usize = 0;
+    pub static mut POS: usize = 0;
+    pub static mut REPLAY: usize = 0;
+    pub fn start_replay() { unsafe { REPLAY = 1; POS = 0; } }
+    #[allow(static_mut_refs)]
+    pub fn lsx(kb: &[u8; 16], ab: &[u8; 16]) -> [u8; 16] {
+        unsafe {
+            let (k, a) = (u128::from_le_bytes(*kb), u128::from_le_bytes(*ab));
+            if REPLAY == 0 {
+                let y: u128 = kani::any();
+                assert!(N < MAXC);
+                K[N] = k; A[N] = a; OUT[N] = y; N += 1;
+                y.to_le_bytes()
+            } else {
+                assert!(POS < N);
+                assert!(K[POS] == k && A[POS] == a); // same question as the recorded run
+                let y = OUT[POS];
+                POS += 1;
+                y.to_le_bytes()
+            }
+        }
+    }
+    pub fn all_replayed() -> bool { unsafe { POS == N } }
+}
